@@ -88,6 +88,29 @@ inline bool nonneg(uint32_t raw) {
 	}
 }
 inline bool is_signof(uint32_t raw, uint32_t& x) { if (!live(raw)) return false; Node const& n = node(raw); if (n.op == COPYSIGN && n.k == F32) { Node const& m = G().nodes[n.a]; if (m.op == CST && m.bits == 0) { x = G().enc(n.b); return true; } } return false; }
+// ---- 32-bit integer lanes (reached through the retargeted specialisations, gen_C03_intsrc.py): nodes of kind I32 / U32
+inline bool is_intlane(uint32_t raw) { if (!live(raw)) return false; Node const& n = node(raw); return (n.k == I32 || n.k == U32) && !is_bool_op(n.op); }
+inline bool is_iconst(uint32_t raw) { return is_intlane(raw) && node(raw).op == CST; }
+inline Kind ikind(uint32_t a, uint32_t b) { if (is_intlane(a) && !is_iconst(a)) return node(a).k; if (is_intlane(b) && !is_iconst(b)) return node(b).k; return U32; }
+inline uint32_t as_k(uint32_t raw, Kind k) {   // the same 32 bits seen as kind k
+	Node const& n = node(raw);
+	if (n.op == CST) return G().mk(CST, k, 0, 0, 0, k == I32 ? (uint64_t)(int64_t)(int32_t)(uint32_t)n.bits : (uint64_t)(uint32_t)n.bits);
+	if (n.k == k) return raw;
+	return G().mk(CAST, k, raw, 0, 0, 0, n.k);
+}
+inline uint32_t i2(Op o, uint32_t a, uint32_t b) {
+	if (!live(a) || !live(b)) return UNDEF;
+	if (!is_intlane(a) || !is_intlane(b)) throw Untraceable("simd: integer arithmetic on a lane that is not an integer");
+	Kind k = ikind(a, b); return G().mk(o, k, as_k(a, k), as_k(b, k));
+}
+inline uint32_t icmp(Op o, Kind k, uint32_t a, uint32_t b) { if (!live(a) || !live(b)) return UNDEF; if (!is_intlane(a) || !is_intlane(b)) throw Untraceable("simd: integer comparison of a lane that is not an integer"); return G().mk(o, k, as_k(a, k), as_k(b, k)); }
+inline uint32_t ishift(Op o, Kind k, uint32_t a, int count) {   // k = I32: arithmetic, U32: logical; the result keeps the lane's own kind
+	if (!live(a)) return UNDEF; if (!is_intlane(a)) throw Untraceable("simd: shift of a lane that is not an integer");
+	Kind own = node(a).op == CST ? k : node(a).k;
+	if (count < 0 || count > 31) return G().mk(CST, own, 0, 0, 0, 0);
+	uint32_t r = G().mk(o, k, as_k(a, k), G().mk(CST, k, 0, 0, 0, (uint64_t)count));
+	return as_k(r, own);
+}
 // the decision on a comparison mask; the complement of a mask (andnot) takes the complementary branch of the same decision
 inline bool dec(uint32_t m) { Node const& n = node(m); if (n.op == LNOT) return !dec(G().enc(n.a)); return G().decide(m); }
 inline bool is_zero_bits(uint32_t raw) { uint32_t c; return is_fconst(raw, c) && c == 0; }
@@ -96,8 +119,9 @@ inline uint32_t land(uint32_t a, uint32_t b) {
 	if (is_zero_bits(a)) return a; if (is_zero_bits(b)) return b;      // also clears an unwritten lane (xyz0 of an aligned vec3)
 	if (ka == LUNDEF || kb == LUNDEF) return UNDEF;
 	if (ka == LMASK && kb == LMASK) return G().mk(LAND, KB, a, b);
+	if ((ka == LINT && (kb == LINT || kb == LBITS)) || (ka == LBITS && kb == LINT)) return i2(BAND, a, b);
 	if (kb == LMASK) { std::swap(a, b); std::swap(ka, kb); }
-	if (ka == LMASK) return dec(a) ? b : (kb == LBITS || kb == LINT ? icst(0) : fcst(0.0f));
+	if (ka == LMASK) return dec(a) ? b : (kb == LINT ? G().mk(CST, node(b).k, 0, 0, 0, 0) : kb == LBITS ? icst(0) : fcst(0.0f));
 	if (ka == LBITS && kb == LBITS) return icst((uint32_t)node(a).bits & (uint32_t)node(b).bits);
 	if (kb == LBITS) { std::swap(a, b); std::swap(ka, kb); }
 	if (ka == LBITS && kb == LFLOAT) {
@@ -117,6 +141,7 @@ inline uint32_t lnot_bits(uint32_t a) {   // operand of andnot
 	if (ka == LUNDEF) return UNDEF;
 	if (ka == LMASK) return G().mk(LNOT, KB, a);
 	if (ka == LBITS) return icst(~(uint32_t)node(a).bits);
+	if (ka == LINT) return G().mk(BNOT, node(a).k, a);
 	uint32_t fb; if (is_fconst(a, fb)) return icst(~fb);
 	throw Untraceable("simd: andnot of a computed value");
 }
@@ -124,6 +149,7 @@ inline uint32_t lor(uint32_t a, uint32_t b) {
 	LK ka = kind(a), kb = kind(b);
 	if (ka == LUNDEF || kb == LUNDEF) return UNDEF;
 	if (ka == LMASK && kb == LMASK) return G().mk(LOR, KB, a, b);
+	if ((ka == LINT && (kb == LINT || kb == LBITS)) || (ka == LBITS && kb == LINT)) return i2(BOR, a, b);
 	uint32_t ca, cb; bool ia = is_fconst(a, ca), ib = is_fconst(b, cb);
 	if (ia && ib) return (ka == LBITS && kb == LBITS) ? icst(ca | cb) : fcst_bits(ca | cb);
 	if (ia && ca == 0) return b;
@@ -136,6 +162,7 @@ inline uint32_t lor(uint32_t a, uint32_t b) {
 inline uint32_t lxor(uint32_t a, uint32_t b) {
 	LK ka = kind(a), kb = kind(b);
 	if (ka == LUNDEF || kb == LUNDEF) return UNDEF;
+	if ((ka == LINT && (kb == LINT || kb == LBITS)) || (ka == LBITS && kb == LINT)) return i2(BXOR, a, b);
 	uint32_t ca, cb; bool ia = is_fconst(a, ca), ib = is_fconst(b, cb);
 	if (ia && ib) return (ka == LBITS && kb == LBITS) ? icst(ca ^ cb) : fcst_bits(ca ^ cb);
 	if (ia) { std::swap(a, b); std::swap(ca, cb); std::swap(ia, ib); std::swap(ka, kb); }
@@ -265,14 +292,59 @@ inline __m256d _mm256_permute4x64_pd(__m256d a, int imm) { __m256d r; for (int i
 inline __m256d _mm256_permute2f128_pd(__m256d a, __m256d b, int imm) { __m256d r; for (int h = 0; h < 2; ++h) { int c = (imm >> (4 * h)) & 15; for (int i = 0; i < 2; ++i) { uint32_t v = (c & 8) ? VT_SH::dzero() : ((c & 2) ? b : a).l[2 * (2 * (c & 1) + i)]; r.l[2 * (2 * h + i)] = v; r.l[2 * (2 * h + i) + 1] = 0; } } return r; }
 inline __m128d _mm256_castpd256_pd128(__m256d a) { __m128d r; for (int i = 0; i < 4; ++i) r.l[i] = a.l[i]; return r; }
 inline __m128d _mm256_extractf128_pd(__m256d a, int h) { __m128d r; for (int i = 0; i < 4; ++i) r.l[i] = a.l[4 * (h & 1) + i]; return r; }
+// ---- 32-bit integer lanes
+template<class A> inline uint32_t vt_ilane(A v) { return VT_SH::icst((uint32_t)v); }
+// integer expressions of constants (e.g. -static_cast<int>(flag)) are folded, so that they can serve as bit masks
+inline bool vt_cfold(uint32_t raw, int64_t& out) {
+	if (!VT_SH::live(raw)) return false; vt::Node const& n = VT_SH::node(raw);
+	if (n.op == vt::CST && (n.k == vt::I32 || n.k == vt::U32 || n.k == vt::KB)) { out = n.k == vt::I32 ? (int64_t)(int32_t)(uint32_t)n.bits : (int64_t)(uint32_t)n.bits; return true; }
+	int64_t a;
+	if (n.op == vt::NEG && (n.k == vt::I32 || n.k == vt::U32) && vt_cfold(vt::G().enc(n.a), a)) { out = -a; return true; }
+	if (n.op == vt::BNOT && (n.k == vt::I32 || n.k == vt::U32) && vt_cfold(vt::G().enc(n.a), a)) { out = ~a; return true; }
+	if (n.op == vt::CAST && (n.k == vt::I32 || n.k == vt::U32) && (n.k2 == vt::I32 || n.k2 == vt::U32 || n.k2 == vt::KB) && vt_cfold(vt::G().enc(n.a), a)) { out = a; return true; }
+	return false;
+}
+template<vt::Kind K> inline uint32_t vt_ilane(vt::Sym<K> v) { int64_t c; if (vt_cfold(v.id, c)) return VT_SH::icst((uint32_t)c); return v.id; }
+inline int vt_count(int c) { return c; }
+template<vt::Kind K> inline int vt_count(vt::Sym<K> c) { if (!VT_SH::live(c.id) || VT_SH::node(c.id).op != vt::CST) throw vt::Untraceable("simd: shift by a traced count"); return (int)(int32_t)(uint32_t)VT_SH::node(c.id).bits; }
+template<vt::Kind K> inline __m128i _mm_set1_epi32(vt::Sym<K> v) { __m128i r; for (int i = 0; i < 4; ++i) r.l[i] = vt_ilane(v); return r; }
+template<class A, class B, class C, class D, class = typename std::enable_if<!(std::is_same<A, int>::value && std::is_same<B, int>::value && std::is_same<C, int>::value && std::is_same<D, int>::value)>::type>
+inline __m128i _mm_set_epi32(A e3, B e2, C e1, D e0) { __m128i r; r.l[0] = vt_ilane(e0); r.l[1] = vt_ilane(e1); r.l[2] = vt_ilane(e2); r.l[3] = vt_ilane(e3); return r; }
+#define VT_I2(NAME, OP) inline __m128i NAME(__m128i a, __m128i b) { __m128i r; for (int i = 0; i < 4; ++i) r.l[i] = VT_SH::i2(vt::OP, a.l[i], b.l[i]); return r; }
+VT_I2(_mm_add_epi32, ADD) VT_I2(_mm_sub_epi32, SUB) VT_I2(_mm_mullo_epi32, MUL)
+#undef VT_I2
+// min / max: the instruction selects on a signed (epi32) or unsigned (epu32) comparison of the 32 bits, whatever the element type
+#define VT_IM(NAME, OP, K) inline __m128i NAME(__m128i a, __m128i b) { __m128i r; for (int i = 0; i < 4; ++i) { uint32_t c = VT_SH::icmp(vt::OP, vt::K, a.l[i], b.l[i]); r.l[i] = c == VT_SH::UNDEF ? c : (vt::G().decide(c) ? a.l[i] : b.l[i]); } return r; }
+VT_IM(_mm_min_epi32, LT, I32) VT_IM(_mm_max_epi32, GT, I32) VT_IM(_mm_min_epu32, LT, U32) VT_IM(_mm_max_epu32, GT, U32)
+#undef VT_IM
+inline __m128i _mm_cmpeq_epi32(__m128i a, __m128i b) { __m128i r; for (int i = 0; i < 4; ++i) r.l[i] = VT_SH::icmp(vt::EQ, VT_SH::ikind(a.l[i], b.l[i]), a.l[i], b.l[i]); return r; }
+template<class C> inline __m128i _mm_slli_epi32(__m128i a, C c) { __m128i r; for (int i = 0; i < 4; ++i) r.l[i] = VT_SH::ishift(vt::SHL, vt::U32, a.l[i], vt_count(c)); return r; }
+template<class C> inline __m128i _mm_srli_epi32(__m128i a, C c) { __m128i r; for (int i = 0; i < 4; ++i) r.l[i] = VT_SH::ishift(vt::SHR, vt::U32, a.l[i], vt_count(c)); return r; }
+template<class C> inline __m128i _mm_srai_epi32(__m128i a, C c) { __m128i r; for (int i = 0; i < 4; ++i) r.l[i] = VT_SH::ishift(vt::SHR, vt::I32, a.l[i], vt_count(c) > 31 ? 31 : vt_count(c)); return r; }
+// sign_epi32(a, b): a, 0 or -a as b is positive, zero or negative
+inline __m128i _mm_sign_epi32(__m128i a, __m128i b) { __m128i r; for (int i = 0; i < 4; ++i) { if (!VT_SH::live(a.l[i]) || !VT_SH::live(b.l[i])) { r.l[i] = VT_SH::UNDEF; continue; }
+	uint32_t z = vt::G().mk(vt::CST, vt::I32, 0, 0, 0, 0), bi = VT_SH::as_k(b.l[i], vt::I32);
+	if (vt::G().decide(vt::G().mk(vt::LT, vt::I32, bi, z))) { vt::Kind k = VT_SH::node(a.l[i]).k; r.l[i] = vt::G().mk(vt::NEG, k, a.l[i]); }
+	else if (vt::G().decide(vt::G().mk(vt::EQ, vt::I32, bi, z))) r.l[i] = vt::G().mk(vt::CST, VT_SH::node(a.l[i]).k, 0, 0, 0, 0); else r.l[i] = a.l[i]; } return r; }
+// whole-register byte shifts by a multiple of four bytes move lanes
+inline __m128i _mm_srli_si128(__m128i a, int bytes) { if (bytes % 4) throw vt::Untraceable("simd: byte shift that splits a lane"); int n = bytes / 4; __m128i r; for (int i = 0; i < 4; ++i) r.l[i] = (i + n < 4) ? a.l[i + n] : VT_SH::icst(0); return r; }
+inline __m128i _mm_slli_si128(__m128i a, int bytes) { if (bytes % 4) throw vt::Untraceable("simd: byte shift that splits a lane"); int n = bytes / 4; __m128i r; for (int i = 0; i < 4; ++i) r.l[i] = (i - n >= 0) ? a.l[i - n] : VT_SH::icst(0); return r; }
+// mul_epu32: 64-bit products of lanes 0 and 2; their low halves are the 32-bit products, the high halves are not modelled
+inline __m128i _mm_mul_epu32(__m128i a, __m128i b) { __m128i r; r.l[0] = VT_SH::i2(vt::MUL, a.l[0], b.l[0]); r.l[1] = VT_SH::UNDEF; r.l[2] = VT_SH::i2(vt::MUL, a.l[2], b.l[2]); r.l[3] = VT_SH::UNDEF; return r; }
+inline __m128i _mm_unpacklo_epi32(__m128i a, __m128i b) { __m128i r; r.l[0] = a.l[0]; r.l[1] = b.l[0]; r.l[2] = a.l[1]; r.l[3] = b.l[1]; return r; }
+inline __m128i _mm_loadu_si128(__m128i const* p) { return *p; }
+inline void _mm_storeu_si128(__m128i* p, __m128i a) { *p = a; }
+// test_all_zeros(a, b): 1 when a & b is zero in every lane; the value is only compared with constants, so it is decided here
+struct vt_ZeroTest { vt::SymBool all; operator int() const { return vt::G().decide(all.id) ? 1 : 0; } };
+inline vt_ZeroTest _mm_test_all_zeros(__m128i a, __m128i b) { vt::SymBool r(true); for (int i = 0; i < 4; ++i) { uint32_t v = a.l[i] == b.l[i] ? VT_SH::need(a.l[i]) : VT_SH::i2(vt::BAND, VT_SH::need(a.l[i]), VT_SH::need(b.l[i])); vt::Kind k = VT_SH::node(v).k; r = r && vt::SymBool(vt::G().mk(vt::EQ, k, v, vt::G().mk(vt::CST, k, 0, 0, 0, 0)), 0); } vt_ZeroTest t; t.all = r; return t; }
 // ---- everything else GLM mentions: declared, not traced
 #define VT_STUB(RET, NAME) template<class... A> inline RET NAME(A...) { throw vt::Untraceable("simd: " #NAME " is not traced"); }
-VT_STUB(__m128i, _mm_slli_epi32) VT_STUB(__m128i, _mm_srli_epi32) VT_STUB(__m128i, _mm_srai_epi32) VT_STUB(__m128i, _mm_sll_epi32) VT_STUB(__m128i, _mm_srl_epi32)
-VT_STUB(__m128i, _mm_sll_epi64) VT_STUB(__m128i, _mm_srl_epi64) VT_STUB(__m128i, _mm_slli_si128) VT_STUB(__m128i, _mm_srli_si128)
-VT_STUB(__m128i, _mm_add_epi32) VT_STUB(__m128i, _mm_sub_epi32) VT_STUB(__m128i, _mm_mullo_epi32) VT_STUB(__m128i, _mm_mul_epu32) VT_STUB(__m128i, _mm_div_epi32)
-VT_STUB(__m128i, _mm_min_epi32) VT_STUB(__m128i, _mm_max_epi32) VT_STUB(__m128i, _mm_min_epu32) VT_STUB(__m128i, _mm_max_epu32) VT_STUB(__m128i, _mm_sign_epi32)
-VT_STUB(__m128i, _mm_cmpeq_epi32) VT_STUB(__m128i, _mm_cmpneq_epi32) VT_STUB(__m128i, _mm_unpacklo_epi32) VT_STUB(__m128i, _mm_unpacklo_epi64) VT_STUB(__m128i, _mm_cvtsi32_si128)
-VT_STUB(__m128i, _mm_loadu_si128) VT_STUB(void, _mm_storeu_si128) VT_STUB(__m128i, _mm_set1_epi64x) VT_STUB(int, _mm_movemask_epi8) VT_STUB(int, _mm_test_all_zeros)
+VT_STUB(__m128i, _mm_sll_epi32) VT_STUB(__m128i, _mm_srl_epi32)
+VT_STUB(__m128i, _mm_sll_epi64) VT_STUB(__m128i, _mm_srl_epi64) 
+VT_STUB(__m128i, _mm_div_epi32)
+
+VT_STUB(__m128i, _mm_cmpneq_epi32) VT_STUB(__m128i, _mm_unpacklo_epi64) VT_STUB(__m128i, _mm_cvtsi32_si128)
+VT_STUB(__m128i, _mm_set1_epi64x) VT_STUB(int, _mm_movemask_epi8) 
 VT_STUB(int, _mm_popcnt_u32) VT_STUB(long long, _mm_popcnt_u64)
 
 VT_STUB(__m128d, _mm_castsi128_pd) VT_STUB(__m128d, _mm_castps_pd)
